@@ -305,7 +305,7 @@ impl C15 {
         let job = if persona == "yices-smt2" && job == "pdr" { "pdr-nogen" } else { job };
         let is_pdr = job.starts_with("pdr");
         let mut chosen = None;
-        for _ in 0..30 {
+        for _ in 0..60 {
             let mut ctx = Context::default();
             let mut cfg = mc_sys_cfg(rng);
             cfg.arrays = false;
@@ -314,7 +314,10 @@ impl C15 {
             let (v, checks, cores, _) = Self::run_with_unknown(job, persona, &mut ctx, &sys, None);
             let definite = matches!(v, Verdict::Success | Verdict::Fail(_));
             // failing systems are the telling ones for BMC (an undecided query must not count as "no counterexample")
-            let wanted = if is_pdr { true } else { matches!(v, Verdict::Fail(_)) || rng.chance(1, 3) };
+            // (for PDR two thirds of the jobs are unsafe systems whose bad state lies a few steps away: the cubes learnt
+            // on the way are the ones an unsound treatment of an undecided query would wrongly keep)
+            let deep_fail = matches!(&v, Verdict::Fail(w) if w.inputs.len() >= 3);
+            let wanted = if is_pdr { deep_fail || rng.chance(1, 3) } else { matches!(v, Verdict::Fail(_)) || rng.chance(1, 3) };
             if definite && wanted && checks >= 2 && checks <= sh.tier.pick(120, 400) && (job != "pdr" || cores >= 1) {
                 let base_len = if let Verdict::Fail(w) = &v { w.inputs.len() } else { 0 };
                 chosen = Some((ctx, sys, v.name(), checks, base_len));
@@ -432,7 +435,15 @@ fn run_child(sh: &Shard, spec: &str, fault: Option<(&str, u64)>, counter: &std::
                     let ticks = unsafe { libc::sysconf(libc::_SC_CLK_TCK) } as u64;
                     let cpu_s = (cpu - cpu0) as f64 / ticks.max(1) as f64;
                     let kids = children_of(pid);
-                    let reason = if kids.is_empty() {
+                    // both sides waiting for the other to speak: the solver sits in read(0, ..) and so does the client
+                    let in_read = |p: u32, fd0: bool| std::fs::read_to_string(format!("/proc/{p}/syscall")).map(|t| {
+                        let f: Vec<&str> = t.split_whitespace().collect();
+                        f.first() == Some(&"0") && (!fd0 || f.get(1) == Some(&"0x0"))
+                    }).unwrap_or(false);
+                    let deadlock = !kids.is_empty() && kids.iter().all(|k| in_read(*k, true)) && in_read(pid, false);
+                    let reason = if deadlock {
+                        Some(format!("still running after {:.0} s: the client waits for more output while the solver waits for the next command (cpu {:.1} s)", t0.elapsed().as_secs_f64(), cpu_s))
+                    } else if kids.is_empty() {
                         Some(format!("still running after {:.0} s although its solver process is gone (cpu {:.1} s)", t0.elapsed().as_secs_f64(), cpu_s))
                     } else if cpu_s > budget.as_secs_f64() * 0.5 {
                         Some(format!("still running after {:.0} s and burning cpu ({:.1} s)", t0.elapsed().as_secs_f64(), cpu_s))
@@ -480,13 +491,13 @@ impl Check for C15 {
         "fault_enumeration"
     }
     fn work(&self, tier: Tier) -> Vec<WorkItem> {
-        vec![WorkItem { mode: "job", count: std::env::var("VERIF_N").ok().and_then(|s| s.parse().ok()).unwrap_or(tier.pick(14, 126)) }, WorkItem { mode: "unknown", count: tier.pick(24, 240) }]
+        vec![WorkItem { mode: "job", count: std::env::var("VERIF_N").ok().and_then(|s| s.parse().ok()).unwrap_or(tier.pick(14, 126)) }, WorkItem { mode: "unknown", count: tier.pick(48, 360) }]
     }
     fn evaluations_counter(&self) -> &'static str {
         "fault_runs"
     }
     fn rule(&self) -> String {
-        format!("jobs = BMC (k=3; all bad states at once, or one at a time), PDR (jobs on profiles with unsat cores are chosen such that the run really asks for a core) and a direct SolverContext session (declare/assert/check-sat/get-value/push/pop/check-sat-assuming/get-unsat-assumptions/restart) on generated systems, each under one of the four solver profiles; a fault-free run counts the N response-bearing points of the conversation (check-sat, check-sat-assuming, get-value, get-unsat-assumptions; counted across restart() through a shared counter file); then for EVERY position n < N (a sample of positions for the job on a shipped design) and EVERY fault kind of {:?} the job is re-run in a child process with the fault armed in the reference solver. Oracle: the call must return an error (or Unknown) - never Success/Fail, never a panic; for error replies the returned text must contain the injected message as one contiguous piece; the child must return within 1000 x fault-free time (clamped to 12..60 s), otherwise /proc is inspected: solver process gone or cpu burning = hang (violation), solver alive and idle = inconclusive. Commands that bear no response (declare/define/assert/push/pop/set-*) get three more fault kinds {:?} at the first, the last-before-a-response and 3 (thorough 10) random positions, plus one position after the last response: where a response follows in the same solver session the call must not report Success/Fail and must carry the message the solver printed; elsewhere only no-hang/no-panic is demanded. Mode unknown: BMC and PDR jobs run in-process through a SolverContext (an implementation of the public trait around the real text-protocol context) that answers Unknown to exactly one satisfiability query, for EVERY query of the conversation in turn - the text protocol itself turns the word `unknown` into an error before the engines see it, so this is the only way their Unknown handling is reached. An engine may carry on after an undecided query only soundly: no panic, a definite verdict must be the fault-free one (BMC jobs are mostly failing systems, where taking `unknown` for `unsat` loses the counterexample), and the frame traces of PDR (hook H3) must still satisfy the invariants of C10 on the explicit state space. One job in seven is BMC (k=2) on a shipped design of 20-250 kB whose conversation has a run of at least 24 kB of answerless commands between two responses; two of the fault positions lie early in the longest such run, and for these faults the pipe into the solver is shrunk to 4 kB so that the client cannot have written the rest of the run before the solver dies. distinct_nontrivial = distinct (job, position, kind) triples executed.", FAULT_KINDS, CMD_FAULT_KINDS)
+        format!("jobs = BMC (k=3; all bad states at once, or one at a time), PDR (jobs on profiles with unsat cores are chosen such that the run really asks for a core) and a direct SolverContext session (declare/assert/check-sat/get-value/push/pop/check-sat-assuming/get-unsat-assumptions/restart) on generated systems, each under one of the four solver profiles; a fault-free run counts the N response-bearing points of the conversation (check-sat, check-sat-assuming, get-value, get-unsat-assumptions; counted across restart() through a shared counter file); then for EVERY position n < N (a sample of positions for the job on a shipped design) and EVERY fault kind of {:?} the job is re-run in a child process with the fault armed in the reference solver. Oracle: the call must return an error (or Unknown) - never Success/Fail, never a panic; for error replies the returned text must contain the injected message as one contiguous piece; the child must return within 1000 x fault-free time (clamped to 12..60 s), otherwise /proc is inspected: solver process gone, cpu burning, or client and solver both blocked in read (each waiting for the other) = hang (violation), solver alive and busy = inconclusive. Commands that bear no response (declare/define/assert/push/pop/set-*) get three more fault kinds {:?} at the first, the last-before-a-response and 3 (thorough 10) random positions, plus one position after the last response: where a response follows in the same solver session the call must not report Success/Fail and must carry the message the solver printed; elsewhere only no-hang/no-panic is demanded. Mode unknown: BMC and PDR jobs run in-process through a SolverContext (an implementation of the public trait around the real text-protocol context) that answers Unknown to exactly one satisfiability query, for EVERY query of the conversation in turn - the text protocol itself turns the word `unknown` into an error before the engines see it, so this is the only way their Unknown handling is reached. An engine may carry on after an undecided query only soundly: no panic, a definite verdict must be the fault-free one (BMC jobs are mostly failing systems, where taking `unknown` for `unsat` loses the counterexample), and the frame traces of PDR (hook H3) must still satisfy the invariants of C10 on the explicit state space. One job in seven is BMC (k=2) on a shipped design of 20-250 kB whose conversation has a run of at least 24 kB of answerless commands between two responses; two of the fault positions lie early in the longest such run, and for these faults the pipe into the solver is shrunk to 4 kB so that the client cannot have written the rest of the run before the solver dies. distinct_nontrivial = distinct (job, position, kind) triples executed.", FAULT_KINDS, CMD_FAULT_KINDS)
     }
     fn assumptions(&self) -> Vec<String> {
         vec!["every injected fault hits a response the job really waits for (positions are enumerated from a fault-free run of the same deterministic job)".into()]
